@@ -117,7 +117,8 @@ def build_tree(node, x, y, views, order, inst):
         do_ref()
 
 
-def run_case(case, inst):
+def make_and_eval_twice(case, inst):
+    """build the rule query of `case` on fresh data and evaluate it twice -> ([obs1, obs2], expected)"""
     node, order, base, form, caching = case
     n = size(node)
 
@@ -152,7 +153,13 @@ def run_case(case, inst):
                 out.append(exc_obs(e))
         return out, exp
 
-    out, exp = run_isolated(body, caching=caching)
+    return run_isolated(body, caching=caching)
+
+
+def run_case(case, inst):
+    node, order, base, form, caching = case
+    n = size(node)
+    out, exp = make_and_eval_twice(case, inst)
     res = {"ok": True, "nontrivial": n >= 2, "transitions": 2,
            "tags": [f"nodes={n}", f"order={order}", f"base={base}", f"form={form}", f"caching={'on' if caching else 'off'}"]
                    + (["ref_under_ref"] if node[1] and node[1][1] else [])
